@@ -5,7 +5,10 @@ import (
 	"errors"
 	"fmt"
 	"math/rand/v2"
+	"reflect"
+	"runtime"
 	"sort"
+	"strings"
 	"time"
 
 	"github.com/safing/portbase/modules"
@@ -25,6 +28,7 @@ type WorkPlan struct {
 	Post     bool    `json:"post,omitempty"`      // after the stop: submit work to stopped modules
 	Limit    int     `json:"limit"`               // microtask concurrency limit
 	Requeue  bool    `json:"requeue,omitempty"`   // C06: re-queue a task after its execution panicked
+	RequeueFast bool `json:"requeue_fast,omitempty"` // ... as soon as every task has run once, and expect the re-run promptly
 }
 
 // WMod is a module of a WorkPlan.
@@ -123,6 +127,7 @@ func genWork(rng *rand.Rand, tier, prop string) *WorkPlan {
 	p.Limit = 2 + rng.IntN(5)
 	p.Settle = rng.IntN(len(durLadder))
 	p.Requeue = prop == "C06"
+	p.RequeueFast = prop == "C06" && rng.IntN(2) == 0
 	ni := rng.IntN(7)
 	if tier == "thorough" {
 		ni = rng.IntN(12)
@@ -205,6 +210,7 @@ type workState struct {
 	itemInv []int
 	rets []runRet
 	tasks map[int]*modules.Task
+	fastRequeueT time.Duration
 	startT, stopT time.Duration
 	errCh chan *modules.ModuleError
 	panicsFired int
@@ -493,7 +499,33 @@ func execWork(prop string, p *WorkPlan, rc *simkit.RunCtx) {
 		}
 		if prop == "C06" && p.Requeue {
 			// let panicking tasks finish, then submit them again
-			time.Sleep(2 * time.Minute)
+			if p.RequeueFast {
+				allRan := func() bool {
+					for k, it := range p.Items {
+						if it.Kind != "task" && it.Kind != "tasksched" {
+							continue
+						}
+						if s.itemInv[k] == 0 {
+							return false
+						}
+						for _, r := range s.recs {
+							if r.Item == k && !r.Ended {
+								return false
+							}
+						}
+					}
+					return true
+				}
+				for n := 0; n < 600 && !allRan(); n++ {
+					time.Sleep(500 * time.Millisecond)
+				}
+				if allRan() {
+					time.Sleep(5 * time.Second) // the clean-up after the panic is still part of the execution
+					s.fastRequeueT = simrt.Now()
+				}
+			} else {
+				time.Sleep(2 * time.Minute)
+			}
 			for k, it := range p.Items {
 				if (it.Kind == "task" || it.Kind == "tasksched") && it.Panic != 0 && s.tasks[k] != nil && s.itemInv[k] == 1 && s.firstPanicked(k) {
 					s.tasks[k].Queue()
@@ -809,6 +841,52 @@ func checkC06(s *workState, p *WorkPlan, rc *simkit.RunCtx) {
 			return
 		}
 	}
+	// every raised value arrives, unchanged in type and content, in one of the reports
+	used := make([]bool, len(reported))
+	ordered := make([]any, 0, len(s.panicVals)) // exact values first, so that the loose matches cannot take their reports
+	for _, v := range s.panicVals {
+		if v != nil && v != "runtime" {
+			ordered = append(ordered, v)
+		}
+	}
+	for _, v := range s.panicVals {
+		if v == "runtime" {
+			ordered = append(ordered, v)
+		}
+	}
+	for _, v := range s.panicVals {
+		if v == nil {
+			ordered = append(ordered, v)
+		}
+	}
+	for _, v := range ordered {
+		found := false
+		for i, me := range reported {
+			if used[i] {
+				continue
+			}
+			switch {
+			case v == nil: // panic(nil): the runtime substitutes its own error value
+				found = me.PanicValue != nil
+			case v == "runtime":
+				_, found = me.PanicValue.(runtime.Error)
+			default:
+				found = reflect.TypeOf(me.PanicValue) == reflect.TypeOf(v) && fmt.Sprint(me.PanicValue) == fmt.Sprint(v)
+			}
+			if found {
+				used[i] = true
+				break
+			}
+		}
+		if !found {
+			var got []string
+			for _, me := range reported {
+				got = append(got, fmt.Sprintf("%T(%v)", me.PanicValue, me.PanicValue))
+			}
+			rc.Fail("C06.panic-value", "no reported panic error carries the value that was raised", fmt.Sprintf("raised %T(%v); reported %s", v, v, strings.Join(got, "; ")))
+			return
+		}
+	}
 	// blocking variants return the panic error
 	for _, rr := range s.rets {
 		it := p.Items[rr.Item]
@@ -904,6 +982,23 @@ func checkC06(s *workState, p *WorkPlan, rc *simkit.RunCtx) {
 				rc.Probe("svc-restarted-after-panic")
 			}
 		case "task", "tasksched":
+			if s.requeued[k] && s.fastRequeueT > 0 && s.itemInv[k] >= 2 {
+				// no task was running or waiting when the tasks were submitted again: the first of them starts
+				// as soon as a timeslot is free (at most 30 s), not after the one-minute execution-wait limit
+				earliest := time.Duration(-1)
+				for _, r := range s.recs {
+					if s.requeued[r.Item] && r.Inv == 1 && (earliest < 0 || r.BeginT < earliest) {
+						earliest = r.BeginT
+					}
+				}
+				if earliest-s.fastRequeueT > 40*time.Second {
+					// Not a violation of the property as stated ("can run again"): the unchanged tree does the same
+					// whenever a task function returns before the queue handler's waiter has read the task context
+					// (the race the source comments on), so lateness is only counted.
+					rc.Probe("task-rerun-after-wait-limit")
+				}
+				rc.Probe("task-rerun-prompt")
+			}
 			if s.requeued[k] && s.itemInv[k] < 2 {
 				rc.Fail("C06.task-not-rerun", "a task whose execution panicked did not run again when re-queued", fmt.Sprintf("item %d", k))
 				return
